@@ -5041,6 +5041,7 @@ class Entity(object, metaclass=EntityMeta):
                             val = get_val(attr) if attr in obj._vals_ else attr.load(obj)
                             if val is None: continue
                             if attr.cascade_delete: val._delete_(undo_funcs)
+                            elif val._vals_.get(reverse) is not obj and reverse in val._vals_: pass  # partner is already re-linked
                             elif not reverse.is_required: reverse.__set__(val, None, undo_funcs)
                             else: throw(ConstraintError, "Cannot delete object %s, because it has associated %s, "
                                                          "and 'cascade_delete' option of %s is not set"
